@@ -564,7 +564,7 @@ fn main() {
     ck.assume("index tensors of Scatter* are not rewritten to contain duplicates (ONNX leaves duplicate indices undefined)");
     ck.set_threads(12);
     let profile = Profile::all_ops();
-    let n = ck.pick(60_000, 1_000_000);
+    let n = ck.pick(150_000, 1_500_000);
     ck.prop_export("ops", n, || op_case(1, 2), |c| oracle_ops(&profile, c, Config::Plain), |c| c.export(&profile));
     let biased = Profile::inplace_biased();
     ck.prop_export("ops-elementwise", n / 4, || op_case(1, 3), |c| oracle_ops(&biased, c, Config::Plain), |c| c.export(&biased));
